@@ -2,6 +2,9 @@
 From Coq Require Import List ZArith Bool Arith.
 Import ListNotations.
 From LV Require Import Goose.Epoch Goose.EpochProofs Goose.Warmup Goose.EpochBuilder.
+(* support library of the source tie (generated file gen_c16.v of every run); required here so that the
+   targeted build of the check compiles it *)
+From LV Require Goose.GenC16Tie.
 Open Scope Z_scope.
 
 Definition econf_eqb (a b : econf) : bool :=
